@@ -360,7 +360,8 @@ impl<'s> Tokenizer<'s> {
                     self.tokenize_block_or_var(BlockSentinel::LineStatement)
                 }
                 Some(LexerState::Variable) => self.tokenize_block_or_var(BlockSentinel::Variable),
-                None => panic!("empty lexer stack"),
+                // input after the `}}` that ends a standalone expression
+                None => return Err(self.syntax_error("unexpected input after end of expression")),
             };
             match ok!(outcome) {
                 ControlFlow::Break(rv) => return Ok(Some(rv)),
